@@ -790,6 +790,9 @@ func (st *State) step(in ssa.Instruction) {
 			vc.nfresh++
 			st.fr.locals[lc] = st.zeroVal(el)
 			st.bind(x, PtrV{Kind: "local", Local: lc, Elem: el, Typ: x.Type()})
+			if x.Comment != "" {
+				st.fr.names["&"+x.Comment] = st.fr.vals[x]
+			}
 			return
 		}
 		if at, isArr := el.Underlying().(*types.Array); isArr {
@@ -803,6 +806,9 @@ func (st *State) step(in ssa.Instruction) {
 		p := st.asPtr(TV{r, x.Type()}, x.Type())
 		st.zeroInit(p, el)
 		st.bind(x, TV{r, x.Type()})
+		if x.Comment != "" {
+			st.fr.names["&"+x.Comment] = TV{r, x.Type()}
+		}
 	case *ssa.FieldAddr:
 		base := st.value(x.X)
 		pt := x.X.Type()
@@ -1245,6 +1251,14 @@ func (st *State) makeInterface(v Val, from, to types.Type) Val {
 	case FuncV:
 		return TV{app("mkint", SInt, vc.typeID(from), st.encodeFunc(x)), to}
 	case PtrV:
+		if x.Path != "" && !refEmbedded[x.Root+"."+x.Path] {
+			// interior pointer boxed into an interface (e.g. &w.mx as sync.Locker): an opaque non-nil value determined by object and field
+			fn := "intptr." + x.Root + "." + x.Path
+			vc.strLits["fun."+fn] = "(Int) Int"
+			c := st.define("iptr", app(smtIdent(fn), SInt, x.Base))
+			st.assume(tAnd(tNot(tEq(c, tInt(0))), tEq(app("typeof", SInt, c), vc.typeID(from))))
+			return TV{c, to}
+		}
 		return TV{app("mkptr", SInt, vc.typeID(from), st.encodePtr(x)), to}
 	case StructV:
 		// struct boxed into an interface: opaque non-nil value with the right dynamic type (the boxed value is remembered for json.Marshal)
